@@ -230,12 +230,23 @@ pub fn build_program(choices: &[(u8, u64)]) -> Vec<ROp> {
                     let (pk, sk) = crate::util::key(((p >> 9) % 4) as usize);
                     let mut sig = sk.sign(&msg);
                     let mut pkb = pk.0.to_vec();
-                    match (p >> 12) % 8 {
-                        0 => sig[((p >> 16) % 64) as usize] ^= 1 << ((p >> 24) % 8),
-                        1 => pkb = crate::util::key(((p >> 9) % 4) as usize + 1).0 .0.to_vec(),
-                        2 => sig.push(0),
-                        3 => pkb.push(0),
-                        _ => {}
+                    // up to two independent abnormalities in one instruction (the order in which operands are examined
+                    // decides between "pushes 0" and "fails")
+                    for sel in [(p >> 12) % 8, (p >> 40) % 16] {
+                        match sel {
+                            0 => sig[((p >> 16) % 64) as usize] ^= 1 << ((p >> 24) % 8),
+                            1 => pkb = crate::util::key(((p >> 9) % 4) as usize + 1).0 .0.to_vec(),
+                            2 => sig.push(0),
+                            3 => pkb.push(0),
+                            8 => {
+                                pkb.pop();
+                            }
+                            9 => {
+                                sig.pop();
+                            }
+                            10 => sig.extend_from_slice(&[0u8; 7]),
+                            _ => {}
+                        }
                     }
                     let n = match (p >> 28) % 4 {
                         0 => msg.len() as u16,
@@ -243,9 +254,17 @@ pub fn build_program(choices: &[(u8, u64)]) -> Vec<ROp> {
                         2 => msg.len() as u16 + 1,
                         _ => 65535,
                     };
-                    b.ops.push(ROp::PushB(sig));
+                    if (p >> 44) % 16 == 0 {
+                        b.ops.push(ROp::PushIC(be(7)));
+                    } else {
+                        b.ops.push(ROp::PushB(sig));
+                    }
                     b.ops.push(ROp::PushB(pkb));
-                    b.ops.push(ROp::PushB(msg));
+                    if (p >> 48) % 16 == 0 {
+                        b.ops.push(ROp::PushIC(be(9)));
+                    } else {
+                        b.ops.push(ROp::PushB(msg));
+                    }
                     b.ops.push(ROp::SigEOk(n));
                     b.st.push(Ty::I);
                     continue;
@@ -515,4 +534,39 @@ pub fn arb_op() -> impl Strategy<Value = ROp> {
         1 => any::<[u8; 32]>().prop_map(ROp::PushI),
         1 => any::<[u8; 32]>().prop_map(ROp::PushIC),
     ]
+}
+
+/// Near-misses of the standard signature covenants: the genuine bytes with a run of whole instructions replaced by
+/// other valid code of exactly the same length (nested counted loops padded with no-ops), so that length, prefix
+/// and/or suffix still match the template. `sel` picks template, window and filling.
+pub fn near_miss_std(sel: u64) -> Vec<u8> {
+    let legacy = sel & 1 == 1;
+    let key = crate::util::key(((sel >> 1) % 4) as usize).0;
+    let cov = if legacy { melvm::Covenant::std_ed25519_pk_legacy(key) } else { melvm::Covenant::std_ed25519_pk_new(key) };
+    let bytes = cov.to_bytes().to_vec();
+    let ops = match crate::refvm::decode(&bytes) {
+        Ok(o) => o,
+        Err(_) => return bytes,
+    };
+    let lens: Vec<usize> = ops.iter().map(|o| crate::refvm::encode(std::slice::from_ref(o)).map(|e| e.len()).unwrap_or(1)).collect();
+    let n = ops.len();
+    let i = ((sel >> 3) as usize) % n;
+    let j = i + 1 + ((sel >> 9) as usize) % (n - i);
+    let start: usize = lens[..i].iter().sum();
+    let wlen: usize = lens[i..j].iter().sum();
+    // filling: up to wlen/5 loops of `iters` iterations, each spanning what follows inside the window, then no-ops
+    let iters = [1u16, 2, 300, 65535][((sel >> 15) % 4) as usize];
+    let mut fill: Vec<u8> = vec![];
+    let max_loops = (wlen / 5).min(((sel >> 17) % 8) as usize);
+    for k in 0..max_loops {
+        let remaining_instr = (max_loops - k - 1) + (wlen - 5 * max_loops);
+        let body = remaining_instr.max(1).min(65535) as u16;
+        fill.extend_from_slice(&crate::refvm::encode(&[ROp::Loop(iters, body)]).unwrap());
+    }
+    while fill.len() < wlen {
+        fill.push(0x09);
+    }
+    let mut out = bytes.clone();
+    out[start..start + wlen].copy_from_slice(&fill[..wlen]);
+    out
 }
